@@ -180,9 +180,57 @@ def wrap_contract(acc, kind, request):
                 break
 
 
+def tls_close_contract(acc):
+    """the TLS client has a receive loop of its own (the record layer is not modelled: PDUs on a stream): the peer shuts
+    the session down before the reply, after its first byte, or in the middle -- for every retry configuration execute()
+    returns (an error object; it does not raise) within the time the settings allow.  All positions of the close x all
+    retry settings are enumerated."""
+    from ref import pdu as rpdu, datamodel as rdm
+    from harness import bind
+    m = dict(kind='req', fc=3, address=2, count=3)
+    for retries in (0, 1, 3):
+        for roe in (False, True):
+            for close_at in (0, 1, 2, 3):                  # logical read number at which the peer is found to have closed
+                clock = clients.VClock()
+                st = clientsim.LAY.ref(clientsim.LAY.initial_state())
+                reply = rpdu.encode(rdm.execute(st, m))
+                line = clients.Line(clock, lambda ln, data: ln.push(reply))
+                state = dict(n=0)
+
+                def decide(size):
+                    state['n'] += 1
+                    if state['n'] - 1 == close_at:
+                        return 'eof'
+                    return ('short', 1) if close_at == 3 and state['n'] == 2 else 'full'
+                wit = dict(tls_close=close_at, retries=retries, retry_on_empty=roe)
+                raised, r = None, None
+                with clients.Patched(clock, line):
+                    c = clients.make_client('tls', line, retries=retries, retry_on_empty=roe, backoff=0.3)
+                    clients.hook_logical_reads(c, line, decide)
+                    t0 = clock.t
+                    try:
+                        r = c.execute(bind.to_obj(dict(m, unit=1)))
+                    except clients.HorizonHit:
+                        raised = 'hang'
+                    except Exception as e:   # noqa
+                        raised = type(e).__name__
+                    waited = clock.t - t0
+                acc.inc('evaluations')
+                budget = (retries + 1) * (3 + 1.0) + sum(0.3 * 2 ** i for i in range(retries)) + 2
+                if raised is not None:
+                    acc.violation('C13/tls/r%d/raised:%s/peer-closed' % (retries, raised), wit,
+                                  'the peer closed the session at read %d: execute raised %s' % (close_at, raised), 'tls')
+                elif waited > budget:
+                    acc.violation('C13/tls/r%d/too-long/peer-closed' % retries, wit, 'execute took %.1f virtual seconds (budget %.1f)' % (waited, budget), 'tls')
+                acc.add('nontrivial', ('tls-close', retries, roe, close_at, clientsim.describe(r)[:2] if raised is None else raised))
+
+
 def shard(args):
     kind, request, tier = args
     acc = Acc()
+    if request == '@tls-close':
+        tls_close_contract(acc)
+        return acc
     if request == '@latency':
         for r in LATENCY_REQS:
             latency_contract(acc, kind, r, tier)
@@ -222,6 +270,7 @@ def run(tier, seed):
     reqs = REQS + ['device-information', 'read-max'] if tier == 'quick' else REQS + ['read-max', 'read-write-registers', 'write-coils', 'write-registers', 'device-information']
     shards = [(k, r, tier) for k in clients.KINDS for r in reqs if tier != 'quick' or (r != 'device-information' or 'rtu' in k) and (r != 'read-max' or k in ('udp', 'tcp'))]
     shards += [(k, '@latency', tier) for k in clients.KINDS]
+    shards.append(('tls', '@tls-close', tier))
     acc = par.run_shards(shard, shards)
     return dict(acc=acc, level=LEVEL,
                 coverage=dict(
@@ -247,6 +296,10 @@ def replay(w):
         return bool(vs), '\n'.join(v['msg'] for v in vs) or 'no violation'
     if 'arrival' in w:
         latency_contract(acc, w['client'], w['request'], 'thorough')
+        vs = [v for v in acc.violations if v['witness'] == w]
+        return bool(vs), '\n'.join(v['msg'] for v in vs) or 'no violation'
+    if 'tls_close' in w:
+        tls_close_contract(acc)
         vs = [v for v in acc.violations if v['witness'] == w]
         return bool(vs), '\n'.join(v['msg'] for v in vs) or 'no violation'
     if 'fillers' in w:
